@@ -68,6 +68,7 @@ class Contract:
         kwargs=None,
         ghost_pre=None,
         no_raise=False,
+        inline_calls=False,
     ):
         self.key = func
         self.module, self.qualname = func.split(":")
@@ -89,6 +90,7 @@ class Contract:
         self.kwargs = kwargs  # for **kwargs functions: {"known": {...}, "open": bool}
         self.ghost_pre = ghost_pre
         self.no_raise = no_raise
+        self.inline_calls = inline_calls  # verified against its contract, but inlined at call sites
 
 
 class ContractDB:
@@ -113,7 +115,7 @@ class ContractDB:
         if key.startswith(self.spec_module + ":"):
             return True
         c = self.contracts.get(key)
-        return key in self.inline or (c is not None and c.inline)
+        return key in self.inline or (c is not None and (c.inline or c.inline_calls))
 
     def opaque_attr(self, kind, attr):
         return self.opaque_attrs.get((kind, attr))
@@ -183,7 +185,30 @@ def _sb_nat(ex, st, args, kwargs):
         yield st, SV("int", z3.StrToInt(s.t))
 
 
-SPEC_BUILTINS = {"pad": _sb_pad, "matches": _sb_matches, "nat": _sb_nat}
+def _sb_key_at(ex, st, args, kwargs):
+    d, j = st.deref(args[0]), args[1]
+    if isinstance(d, PDict):
+        yield st, list(d.items.keys())[j]
+    else:
+        yield st, SV(d.ksort, d.key_at[lift(j, "int")])
+
+
+def _sb_val_at(ex, st, args, kwargs):
+    d, j = st.deref(args[0]), args[1]
+    if isinstance(d, PDict):
+        yield st, list(d.items.values())[j]
+    else:
+        yield st, SV(d.vsort, d.val[d.key_at[lift(j, "int")]])
+
+
+def _sb_same_dict(ex, st, args, kwargs):
+    """Same keys, same values, same insertion order."""
+    a, b = st.deref(args[0]), st.deref(args[1])
+    yield st, SV("bool", bm.sdict_equal(a, b, ordered=True))
+
+
+SPEC_BUILTINS = {"pad": _sb_pad, "matches": _sb_matches, "nat": _sb_nat, "key_at": _sb_key_at, "val_at": _sb_val_at,
+                 "same_dict": _sb_same_dict}
 
 
 def bm_split(s):
@@ -653,9 +678,17 @@ def verify_function(db: ContractDB, c: Contract, case=None) -> FunctionResult:
         res.digest = source_digest(c.module, c.qualname)
         ex = Exec(db)
         loops = loop_nodes(node)
-        if len(c.loops) > len(loops):
-            raise SourceError(f"{c.key}: contract has {len(c.loops)} loop specs, source has {len(loops)} loops")
-        loop_map = {id(n): (c.loops[i] if i < len(c.loops) else None, i) for i, n in enumerate(loops)}
+        # loop specs are matched by header text when they carry one (robust to added/removed/reordered
+        # loops), else by ordinal; a loop without a matching spec is unrolled if concrete, else undecided
+        loop_map = {}
+        by_header = {sp.header: sp for sp in c.loops if sp.header is not None}
+        positional = [sp for sp in c.loops if sp.header is None]
+        for i, n in enumerate(loops):
+            hdr = ast.unparse(n.test if isinstance(n, ast.While) else n.iter)
+            sp = by_header.get(hdr)
+            if sp is None and i < len(c.loops) and c.loops[i].header is None:
+                sp = c.loops[i]
+            loop_map[id(n)] = (sp, i)
 
         def loop_spec(n, st):
             sp = loop_map.get(id(n))
